@@ -131,7 +131,29 @@ type c09Exec struct {
 	svc    func(i int) (string, string) // service: (endpoint path, file)
 }
 
-func c09Mix(srcRoot string) []c09Exec {
+// sqlProg renders a program that opens its own SQLite database file, seeds a table, runs body and ends.
+func sqlProg(dbDir string, i int, afterOpen, body string) string {
+	return fmt.Sprintf("import \"fmt\"\nimport \"sql\"\nfunc main() {\n dbFile := %q\n db, err := sql.Open(\"sqlite\", dbFile)\n if err != nil {\n  fmt.Println(\"open failed\", err)\n  return\n }\n%s _, e0 := db.Execute(\"DROP TABLE IF EXISTS t\")\n _, e1 := db.Execute(\"CREATE TABLE t (id INTEGER PRIMARY KEY, v TEXT)\")\n _, e2 := db.Execute(\"INSERT INTO t VALUES (1, 'a')\")\n fmt.Println(e0, e1, e2)\n%s}\n",
+		fmt.Sprintf("%s/c09-%d.db", dbDir, i%7), afterOpen, body)
+}
+
+// c09NoClose are programs that open a database and end WITHOUT calling Close(). The property text neither clearly
+// lets them off nor convicts them, so they run in a separate, purely observational phase: counts are recorded, no verdict.
+func c09NoClose(dbDir string) []c09Exec {
+	return []c09Exec{
+		{kind: "sql-never-closed-normal-end", mode: "run", src: func(i int) string {
+			return sqlProg(dbDir, i, "", " fmt.Println(\"no close\")\n")
+		}},
+		{kind: "sql-never-closed-tx-behind-back-error-end", mode: "run", src: func(i int) string {
+			return sqlProg(dbDir, i, "", " fmt.Println(db.Begin())\n _, e3 := db.Execute(\"COMMIT\")\n fmt.Println(e3)\n a := []int{1}\n j := 4\n fmt.Println(a[j])\n")
+		}},
+		{kind: "sql-never-closed-panic-end", mode: "run", src: func(i int) string {
+			return sqlProg(dbDir, i, "", " fmt.Println(db.Begin())\n panic(\"no close\")\n")
+		}},
+	}
+}
+
+func c09Mix(srcRoot string, dbDir string) []c09Exec {
 	main := func(body string) string { return "import \"fmt\"\nimport \"sort\"\nimport \"sync\"\nimport \"os\"\nimport \"strings\"\n" + body }
 
 	return []c09Exec{
@@ -218,6 +240,55 @@ func c09Mix(srcRoot string) []c09Exec {
 		{kind: "debug-session-continued-to-end", mode: "debug-continue", expect: "finished", src: func(i int) string {
 			return fmt.Sprintf("x := %d\nfmt.Println(x)\n", i)
 		}},
+		// ---- sql runtime package: every one of these programs calls Close() on what it opened
+		{kind: "sql-open-use-close", mode: "run", expect: "ok", src: func(i int) string {
+			return sqlProg(dbDir, i, "", " rows, e3 := db.QueryResult(\"SELECT id, v FROM t\")\n fmt.Println(len(rows), e3)\n fmt.Println(db.Close())\n")
+		}},
+		{kind: "sql-close-twice", mode: "run", expect: "", src: func(i int) string {
+			return sqlProg(dbDir, i, "", " fmt.Println(db.Close())\n fmt.Println(db.Close())\n")
+		}},
+		{kind: "sql-tx-commit-close", mode: "run", expect: "", src: func(i int) string {
+			return sqlProg(dbDir, i, "", " fmt.Println(db.Begin())\n _, e3 := db.Execute(\"INSERT INTO t VALUES (2, 'b')\")\n ec := db.Commit()\n fmt.Println(e3, ec)\n fmt.Println(db.Close())\n")
+		}},
+		{kind: "sql-tx-rollback-close", mode: "run", expect: "", src: func(i int) string {
+			return sqlProg(dbDir, i, "", " fmt.Println(db.Begin())\n _, e3 := db.Execute(\"INSERT INTO t VALUES (2, 'b')\")\n er := db.Rollback()\n fmt.Println(e3, er)\n fmt.Println(db.Close())\n")
+		}},
+		{kind: "sql-tx-open-at-close", mode: "run", expect: "", src: func(i int) string {
+			return sqlProg(dbDir, i, "", " fmt.Println(db.Begin())\n _, e3 := db.Execute(\"INSERT INTO t VALUES (2, 'b')\")\n fmt.Println(e3)\n fmt.Println(db.Close())\n")
+		}},
+		{kind: "sql-tx-raw-commit-behind-back", mode: "run", expect: "", src: func(i int) string {
+			return sqlProg(dbDir, i, "", " fmt.Println(db.Begin())\n _, e3 := db.Execute(\"INSERT INTO t VALUES (2, 'b')\")\n _, e4 := db.Execute(\"COMMIT\")\n fmt.Println(e3, e4)\n fmt.Println(db.Commit())\n fmt.Println(db.Close())\n fmt.Println(db.Close())\n")
+		}},
+		{kind: "sql-tx-raw-rollback-behind-back", mode: "run", expect: "", src: func(i int) string {
+			return sqlProg(dbDir, i, "", " fmt.Println(db.Begin())\n _, e3 := db.Execute(\"ROLLBACK\")\n fmt.Println(e3)\n fmt.Println(db.Rollback())\n fmt.Println(db.Close())\n")
+		}},
+		{kind: "sql-tx-insert-or-rollback-conflict", mode: "run", expect: "", src: func(i int) string {
+			return sqlProg(dbDir, i, "", " fmt.Println(db.Begin())\n _, e3 := db.Execute(\"INSERT OR ROLLBACK INTO t VALUES (1, 'dup')\")\n fmt.Println(e3)\n _, e4 := db.Execute(\"INSERT INTO t VALUES (3, 'c')\")\n ec := db.Commit()\n fmt.Println(e4, ec)\n fmt.Println(db.Close())\n")
+		}},
+		{kind: "sql-cursor-left-open-then-close", mode: "run", expect: "", src: func(i int) string {
+			return sqlProg(dbDir, i, "", " rows, e3 := db.Query(\"SELECT id, v FROM t\")\n more := rows.Next()\n fmt.Println(e3, more)\n fmt.Println(db.Close())\n")
+		}},
+		{kind: "sql-close-then-ego-error", mode: "run", expect: "error", src: func(i int) string {
+			return sqlProg(dbDir, i, "", " fmt.Println(db.Begin())\n _, e3 := db.Execute(\"COMMIT\")\n ecl := db.Close()\n fmt.Println(e3, ecl)\n a := []int{1}\n j := 4\n fmt.Println(a[j])\n")
+		}},
+		{kind: "sql-close-then-panic", mode: "run", expect: "", src: func(i int) string {
+			return sqlProg(dbDir, i, "", " fmt.Println(db.Begin())\n _, e3 := db.Execute(\"INSERT OR ROLLBACK INTO t VALUES (1, 'dup')\")\n ecl := db.Close()\n fmt.Println(e3, ecl)\n panic(\"after close\")\n")
+		}},
+		{kind: "sql-begin-then-deferred-close-and-panic", mode: "run", expect: "", src: func(i int) string {
+			return sqlProg(dbDir, i, "", " fmt.Println(db.Begin())\n defer db.Close()\n panic(\"with deferred close\")\n")
+		}},
+		{kind: "sql-deferred-closure-close-and-panic", mode: "run", expect: "", src: func(i int) string {
+			return sqlProg(dbDir, i, " defer func() { db.Close() }()\n", " fmt.Println(db.Begin())\n panic(\"with deferred close\")\n")
+		}},
+		{kind: "sql-deferred-close-normal-end", mode: "run", expect: "", src: func(i int) string {
+			return sqlProg(dbDir, i, " defer db.Close()\n", " _, e3 := db.Execute(\"INSERT INTO t VALUES (5, 'e')\")\n fmt.Println(e3)\n")
+		}},
+		{kind: "sql-open-fails", mode: "run", expect: "", src: func(i int) string {
+			return "import \"fmt\"\nimport \"sql\"\nfunc main() {\n db, err := sql.Open(\"mysql\", \"/nonexistent/x.db\")\n fmt.Println(db, err)\n d2, e2 := sql.Open(\"sqlite\", \"/nonexistent-dir/sub/x.db\")\n fmt.Println(e2)\n if d2 != nil {\n  _, e3 := d2.Execute(\"CREATE TABLE t (id INTEGER)\")\n  ecl := d2.Close()\n fmt.Println(e3, ecl)\n }\n}\n"
+		}},
+		{kind: "rest-client-connection-refused", mode: "run", expect: "", src: func(i int) string {
+			return "import \"fmt\"\nimport \"rest\"\nfunc main() {\n conn := rest.New(\"\").Base(\"http://127.0.0.1:1\").Media(\"application/json\")\n r, err := conn.Get(\"nothing/here\")\n fmt.Println(r, err)\n}\n"
+		}},
 		{kind: "service-hello", mode: "service", expect: "200", svc: func(i int) (string, string) {
 			return "/services/hello", filepath.Join(srcRoot, "lib/services/hello.ego")
 		}},
@@ -269,8 +340,8 @@ func runService(path, file string) (o outcome) {
 
 func TestC09(t *testing.T) {
 	r := vh.New("C09", "goroutines")
-	r.Rule = "one round = N executions cycling through 30 kinds of execution (normal end, Ego error, unrecovered panic(), @fail, compile error, os.Exit, goroutines joined by WaitGroup/channels, " +
-		"sort.Slice comparators incl. erroring ones, String() methods called from fmt incl. erroring ones, @test files (Timer opcode), admin.RunCodeHandler editor/console, dashboard debug sessions abandoned-then-evicted and continued to the end, services.ServiceHandler) with varying parameters; " +
+	r.Rule = "one round = N executions cycling through 46 kinds of execution (normal end, Ego error, unrecovered panic(), @fail, compile error, os.Exit, goroutines joined by WaitGroup/channels, " +
+		"sort.Slice comparators incl. erroring ones, String() methods called from fmt incl. erroring ones, @test files (Timer opcode), admin.RunCodeHandler editor/console, dashboard debug sessions abandoned-then-evicted and continued to the end, the sql runtime package on SQLite files (open/use/close, close twice, transactions committed, rolled back, left open, or ended behind the back of database/sql by a raw COMMIT/ROLLBACK or an INSERT OR ROLLBACK conflict, a cursor left open, always followed by Close(); ending normally, by Ego error, by panic, with a deferred Close), a rest client against a refused port, services.ServiceHandler) with varying parameters; " +
 		"distinct = distinct (kind, source); non-trivial = the execution really compiled and ran Ego code."
 	r.Assume("goroutines are attributed to the function named in the 'created by' line of runtime.Stack(all)")
 	r.Assume("every program of the mix joins the goroutines it starts, so any goroutine alive at a checkpoint was started by the interpreter, not left running by the program")
@@ -293,7 +364,8 @@ func TestC09(t *testing.T) {
 	runExtensions = true // try/catch is a language extension
 	_ = os.Chdir(sandbox)
 
-	mix := c09Mix(srcRoot)
+	dbDir := filepath.Join(arena, "c09", "sandbox")
+	mix := c09Mix(srcRoot, dbDir)
 
 	// which service kinds work without the full server fixture is decided by a dry run
 	serviceOK := map[string]bool{}
@@ -459,6 +531,60 @@ func TestC09(t *testing.T) {
 	}
 
 	r.Sample(map[string]any{"goroutines_before_any_execution": base.total, "live_goroutines_by_creation_site_at_checkpoints": table})
+
+	// Directed probe of a recorded finding, kept out of the mix so that the mix can still convict any OTHER leak at the
+	// same creation site: "defer db.Close()" written BEFORE db.Begin() closes a receiver snapshot that knows no transaction.
+	{
+		const site = "database/sql.(*DB).beginDC"
+
+		r.Probe("leak:" + site + ":deferred-close-before-begin")
+
+		var counts []int
+
+		for round := 0; round < 3; round++ {
+			for i := 0; i < 5; i++ {
+				_ = runInput("run", sqlProg(dbDir, i, " defer db.Close()\n", " fmt.Println(db.Begin())\n fmt.Println(\"ends normally with the transaction open\")\n"))
+			}
+
+			settle(5 * time.Second)
+
+			m, _, _ := goroutineSites()
+			counts = append(counts, m[site])
+		}
+
+		if counts[0] < counts[1] && counts[1] < counts[2] {
+			r.Violate(vh.Violation{Key: "leak:" + site + ":deferred-close-before-begin",
+				Desc:     fmt.Sprintf("a program that runs `defer db.Close()` and then db.Begin() and ends (so Close() IS called) leaves one database/sql transaction goroutine (Tx.awaitDone) per execution: %v after 3 x 5 executions", counts),
+				Case:     map[string]any{"program": sqlProg(dbDir, 0, " defer db.Close()\n", " fmt.Println(db.Begin())\n")},
+				Expected: "Close() leaves nothing running", Observed: counts})
+		}
+	}
+
+	// Observation only (no verdict): programs that open a database and end without ever calling Close().
+	{
+		nc := c09NoClose(dbDir)
+		obs := map[string][]int{}
+		before, _, _ := goroutineSites()
+
+		for round := 0; round < 2; round++ {
+			for i := 0; i < 30; i++ {
+				e := &nc[i%len(nc)]
+				o := runInput(e.mode, e.src(i))
+				r.Count("observed-only."+e.kind+"."+o.Class, 1)
+			}
+
+			settle(5 * time.Second)
+
+			after, _, _ := goroutineSites()
+			for site, n := range after {
+				if n != before[site] {
+					obs[site] = append(obs[site], n-before[site])
+				}
+			}
+		}
+
+		r.Note(fmt.Sprintf("observation, no claim: after 2 x 30 programs that sql.Open and end WITHOUT Close() (normal end, Ego error, panic), live goroutines per creation site changed by %v relative to the last checkpoint", obs))
+	}
 
 	var okKinds []string
 	for k := range serviceOK {
